@@ -163,7 +163,7 @@ Definition consume_field_value (num typ : Z) (b : bytes) : Z :=
   consume_field_value_d (S (S (length b + length b))) num typ b DefaultRecursionLimit.
 
 (* zig-zag and bool transforms (conv.go, wire.go) *)
-Definition encode_zigzag32 (v : Z) : Z := Z.lxor (u32 (Z.shiftl v 1)) (u32 (Z.shiftr v 31)).
+Definition encode_zigzag32 (v : Z) : Z := Z.lxor (u32 (s32 (Z.shiftl v 1))) (u32 (Z.shiftr v 31)).
 Definition decode_zigzag32 (v : Z) : Z :=
   Z.lxor (s32 (Z.shiftr v 1)) (Z.shiftr (s32 (Z.shiftl (s32 v) 31)) 31).
 Definition encode_zigzag64 (x : Z) : Z := Z.lxor (u64 (s64 (Z.shiftl x 1))) (u64 (Z.shiftr x 63)).
